@@ -11,7 +11,7 @@ CTX = {}
 def gen_case(rng):
     return {'kind': 'schemaleak', 'order': rng.choice(['plain-first', 'over-first']),
             'how': rng.choice(['_schema', '_condition', 'merge_overrides', '_schema_default', 'nested_glob',
-                               'override_after_run', 'shared_params']),
+                               'override_after_run', 'shared_params', '_schema_updater']),
             'glob_child': rng.random() < 0.7, 'ticks': rng.choice([1, 2])}
 
 
@@ -22,6 +22,8 @@ def corpus():
             {'kind': 'schemaleak', 'order': 'plain-first', 'how': '_condition', 'glob_child': True, 'ticks': 1},
             # the same process objects loaded into a second engine after one of them was given an override
             {'kind': 'schemaleak', 'order': 'plain-first', 'how': 'override_after_run', 'glob_child': True, 'ticks': 1},
+            # the override of one instance names another updater for a variable both instances declare
+            {'kind': 'schemaleak', 'order': 'over-first', 'how': '_schema_updater', 'glob_child': True, 'ticks': 3},
             # F48: two processes built from one parameter dictionary that carries a `_schema`
             {'kind': 'schemaleak', 'order': 'plain-first', 'how': 'shared_params', 'glob_child': True, 'ticks': 1},
             # F33: two glob viewers with nested sub-schemas on one store
@@ -36,6 +38,8 @@ def run_impl(case):
     CTX[key] = log
     PORTS = {'a': {'x': {'_default': 0}}, 'g': {'*': {'x': {'_default': 0}}}}
 
+    bump = case['how'] == '_schema_updater'
+
     class Shared(Process):
         defaults = {'key': None, 'who': ''}
 
@@ -47,7 +51,7 @@ def run_impl(case):
             if lg is not None:
                 lg.append({'who': self.parameters['who'], 'a': sorted(states['a'].keys()),
                            'g': {k: sorted(v.keys()) for k, v in states['g'].items()}})
-            return {}
+            return {'a': {'x': 1}} if bump else {}
     obs = {'log': log}
     if case['how'] == 'nested_glob':
         return _nested_glob(case, key, log)
@@ -59,6 +63,10 @@ def run_impl(case):
         elif case['how'] == '_schema_default':
             # the override changes the default of a variable both instances declare
             over = Shared({'key': key, 'who': 'over', '_schema': {'a': {'x': {'_default': 10}}}})
+            extra_a, extra_g = [], []
+        elif case['how'] == '_schema_updater':
+            # the override gives the variable of ONE instance the `set` updater; the other keeps `accumulate`
+            over = Shared({'key': key, 'who': 'over', '_schema': {'a': {'x': {'_updater': 'set'}}}})
             extra_a, extra_g = [], []
         elif case['how'] == '_condition':
             over = Shared({'key': key, 'who': 'over', '_condition': ('a', 'enabled')})
@@ -95,6 +103,9 @@ def run_impl(case):
         state = eng.state.get_value()
         obs['values'] = {'A.x': state.get('A', {}).get('x'), 'A2.x': state.get('A2', {}).get('x')}
         obs['expected_values'] = {'A.x': 10 if case['how'] == '_schema_default' else 0, 'A2.x': 0}
+        if bump:
+            # +1 per tick: `set` leaves 1, `accumulate` counts the ticks
+            obs['expected_values'] = {'A.x': 1, 'A2.x': case['ticks']}
         obs['declared'] = {'plain': {'a': ['x'], 'g': ['x']},
                            'over': {'a': sorted(['x'] + extra_a), 'g': sorted(['x'] + extra_g)}}
     except Exception as e:  # noqa
